@@ -14,19 +14,22 @@ import (
 // ---- alphabet -------------------------------------------------------------------------------
 
 // The table is keyed by the name string as passed (a NetBIOS name is 16 significant bytes, the last
-// one being the service suffix): names 5..8 are full 16-byte names that differ from each other only
-// in the suffix byte (5/6), only in letter case (6/7) or only in the padding bytes (6/8). Every
-// entry is a distinct name to the model.
+// one being the service suffix): names 5..7 are full 16-byte names that differ from each other only
+// in the suffix byte (5/6) or only in the padding bytes (6/7). Every entry is a distinct name to the
+// model. No two entries differ only in letter case: whether such names are one name or two (case
+// folding) is not defined by the property.
 var names = []string{"ALPHA", "BRAVO", "CHARLIE", "DELTA", "ECHO",
-	"FILESRV        \x00", "FILESRV        \x20", "filesrv        \x20", "FILESRV\x00\x00\x00\x00\x00\x00\x00\x00\x20"}
+	"FILESRV        \x00", "FILESRV        \x20", "FILESRV\x00\x00\x00\x00\x00\x00\x00\x00\x20"}
 
 // TTLs are hours in the past or in the future, so that expiry is independent of the clock and of
 // scheduling: no run lasts an hour. A registration carries a TTL code: 0 = by name (odd index: one
 // hour in the past, so that the name is always expired at the next sweep; even index: one hour
 // ahead), 1 = +1h, 2 = -1h, 3 = +1000h, 4 = 1ns. A time-to-live of one nanosecond is a valid,
-// non-negative value that lies in the past by the time the registering call has returned (run makes
-// sure of it, see settle): it gives expired names without relying on the table accepting a negative
-// time-to-live, which is invalid input a table may refuse.
+// non-negative value; a table that keeps time to the nanosecond has it expired by the time the
+// registering call has returned (run makes sure of it, see settle), one that rounds a time-to-live up
+// to its own granularity (whole seconds on the wire) has not: the expiry of such a record is open
+// in the model (a sweep may remove it or keep it). Names that are certainly expired come from the
+// negative time-to-live, where the table accepts it (it is invalid input a table may refuse).
 func ttlOf(o op) time.Duration {
 	switch o.TTL {
 	case 1:
@@ -218,8 +221,8 @@ type rec struct {
 	Owners   []int // canonical ids in registration order, no duplicates
 	Exp      int   // live, dead, open
 	// RI says where a refresh puts the expiry: +1 hours ahead (the refresh interval is that of a
-	// registration with a TTL of hours), -1 in the past by the next call (TTL of -1h or 1ns), 0 not
-	// determined. A record is created with the interval of the creating registration; which interval
+	// registration with a TTL of hours), -1 in the past by the next call (TTL of -1h), 0 not
+	// determined (TTL of 1ns). A record is created with the interval of the creating registration; which interval
 	// applies after a later successful registration on the same record (a member joining, an owner
 	// registering again) is not stated by the property: if that registration's TTL points the other
 	// way, the interval is undetermined from then on.
@@ -268,11 +271,27 @@ type outcome struct {
 	Next state
 }
 
+// expOf: expiry state of a record created with the given time-to-live. Below one second (the 1ns
+// code) it is open: an implementation may round a time-to-live up.
 func expOf(ttl int64) int {
-	if ttl <= int64(time.Nanosecond) {
+	switch {
+	case ttl < 0:
 		return dead
+	case ttl < int64(time.Second):
+		return open
 	}
 	return live
+}
+
+// riOf: sign of the refresh interval that goes with a time-to-live (see rec.RI).
+func riOf(ttl int64) int {
+	switch expOf(ttl) {
+	case dead:
+		return -1
+	case open:
+		return 0
+	}
+	return 1
 }
 
 // A registration that succeeds on an existing record (a member joining a group, a member or owner
@@ -303,10 +322,7 @@ func apply(s state, o op) []outcome {
 	switch o.Kind {
 	case "reg":
 		te := expOf(int64(ttlOf(o)))
-		ri := 1
-		if te == dead {
-			ri = -1
-		}
+		ri := riOf(int64(ttlOf(o)))
 		// A negative time-to-live is not a valid one (it is an unsigned number of seconds on the
 		// wire): a table that refuses such a registration, leaving everything as it was, is within
 		// the property. One that accepts it holds a name that is expired from the start.
@@ -405,8 +421,8 @@ func apply(s state, o op) []outcome {
 		}
 		// "RefreshName updates the TTL for a name registration": a successful refresh moves the
 		// expiry to now + refresh interval. With an interval of +1h/+1000h the name is live again
-		// whatever its expiry was; an interval of -1h or 1ns (devices of this check) is only held
-		// to keep a name dead that was dead already.
+		// whatever its expiry was; an interval of -1h (a device of this check) is only held to keep
+		// a name dead that was dead already; with one of 1ns the expiry is open afterwards.
 		n := s.clone()
 		x := n[o.Name]
 		switch {
@@ -433,7 +449,13 @@ func apply(s state, o op) []outcome {
 		x := n[o.Name]
 		x.Conflict = true
 		n[o.Name] = x
-		return []outcome{{result{OK: true}, n}}
+		outs := []outcome{{result{OK: true}, n}}
+		if r.Conflict {
+			// marking a name that is marked already changes nothing: whether that counts as success
+			// or is refused is not stated by the property
+			outs = append(outs, same(false))
+		}
+		return outs
 	}
 	// clean: every name whose expiry lies in the past disappears, every name whose expiry lies ahead
 	// stays; one outcome per choice for the names whose expiry is open
